@@ -13,7 +13,7 @@ RULE = ("abstract messages over the whole grammar: every kind x EVERY subset of 
         "distinct = hash(abstract message)")
 ASSUMPTIONS = ["text never has leading/trailing white space or CR (excluded by the property)",
                "structural view compares attribute values as str, '' == absent text"]
-REQUIRED_EVENTS = ["roundtrips", "foreign_parses", "kinds_x_optsubsets"]
+REQUIRED_EVENTS = ["roundtrips", "foreign_parses", "foreign_parses_utf8_bytes", "kinds_x_optsubsets"]
 
 
 def classify(am, va, vb):
@@ -85,6 +85,19 @@ def one_case(ctx, case):
         if vf_ != want:
             ctx.violate("foreign-spelling-misread:" + classify(am, want, vf_), "equivalent spelling parsed to a different message",
                         case, {"am": am, "spelling": sp, "text": text, "got": vf_, "want": want})
+            break
+        # the same spelling as UTF-8 BYTES (XML's default encoding; what a foreign peer's serializer hands over)
+        ctx.count("foreign_parses_utf8_bytes")
+        try:
+            mb = M.IndiMessage.from_string(text.encode("utf-8"))
+            vb = view_lib(mb)
+        except Exception as e:
+            ctx.violate("parse-rejects-foreign-spelling-as-utf8-bytes:" + am["tag"], f"from_string rejects UTF-8 bytes: {e!r}", case,
+                        {"am": am, "spelling": sp, "text": text})
+            break
+        if vb != want:
+            ctx.violate("utf8-bytes-misread:" + classify(am, want, vb), "the same spelling given as UTF-8 bytes parsed to a different message",
+                        case, {"am": am, "spelling": sp, "text": text, "got": vb, "want": want})
             break
     ctx.case({"am": am}, nontrivial=len(am["attrs"]) > 0, sample={"message": am, "wire": s1.decode("latin1")})
 
